@@ -353,6 +353,9 @@ def run(ctx):
     directed_scenarios(ctx, delay_in_script)
     faulted_pool_scenarios(ctx)
     follow_links_race_scenarios(ctx)
+    # input paths on argv and on --stdin: nested ones the outer walk does not reach, names that are not UTF-8 / end in white space
+    from . import nested_rt
+    nested_rt.nested_unreached_roots_check(ctx, ctx.pick(30, 300), "C13")
     # the cache is a performance setting: files that join / leave a class by in-place rewrites between cached runs
     from . import midrun_rt
     midrun_rt.restore_older_check(ctx, ctx.pick(8, 100))
